@@ -102,6 +102,13 @@ def renderCluster : Option LiveCluster → String
   | none => "absent"
   | some lc => toString lc.tag ++ "|" ++ (if lc.hosts.isEmpty then "-" else joinSep "+" (lc.hosts.map renderHost))
 
+def renderListener : Option LiveListener → String
+  | none => "absent"
+  | some l =>
+    let sfs (x : List String) := if x.isEmpty then "-" else joinSep "+" x
+    joinSep "|" [l.cfg.addr, sfs l.sf, toString l.nf, toString l.idle, sfs l.cfg.sf, toString l.cfg.nf, toString l.cfg.idle,
+      toString l.cfg.keep]
+
 /-- the observation of a history's final state -/
 structure Observation where
   results : List Bool
@@ -109,16 +116,20 @@ structure Observation where
   rebR : List String
   liveC : List (Option LiveCluster)
   rebC : List (Option LiveCluster)
+  liveL : List (Option LiveListener)
+  rebL : List (Option LiveListener)
   deriving Repr, DecidableEq
 
 /-- the model's observation: the live side from the live components, the rebuilt side from `rebuild* (dump s)`. The live
 clusters are reported raw (unclamped weights), as the harness reads them. -/
-def observe (o : Oracle) (rnames cnames : List String) (res : List Bool) (s : State) : Observation where
+def observe (o : Oracle) (rnames cnames lnames : List String) (res : List Bool) (s : State) : Observation where
   results := res
   liveR := rnames.map (fun n => renderRouter (liveRouters s n))
   rebR := rnames.map (fun n => renderRouter (rebuildRouters o (dump s) n))
   liveC := cnames.map (fun n => s.clusters n)
   rebC := cnames.map (fun n => rebuildClusters (dump s) n)
+  liveL := lnames.map (fun n => s.listeners n)
+  rebL := lnames.map (fun n => rebuildListeners (dump s) n)
 
 /-! ## syntactic facts about operations -/
 
@@ -139,6 +150,12 @@ def routerNames : Op → List String
   | .addOrUpdateRouters cfg => [cfg.name]
   | .addRoute n _ _ => [n]
   | .removeAllRoutes n _ => [n]
+  | _ => []
+
+/-- listener names an operation mentions (the name a listener is registered under) -/
+def listenerNames : Op → List String
+  | .addOrUpdateListener lc => [effName lc]
+  | .deleteListener n => [n]
   | _ => []
 
 /-- the operation can create cluster `n` -/
@@ -162,7 +179,7 @@ def effCluster (lc : LiveCluster) : LiveCluster := ⟨lc.tag, lc.hosts.map (fun 
 
 /-- live observation = observation of the objects rebuilt from the dump -/
 def coherent (ob : Observation) : Bool :=
-  ob.liveR == ob.rebR && ob.liveC.map (·.map effCluster) == ob.rebC
+  ob.liveR == ob.rebR && ob.liveC.map (·.map effCluster) == ob.rebC && ob.liveL == ob.rebL
 
 def addrs (l : List Host) : List String := l.map (·.addr)
 
@@ -173,7 +190,7 @@ def isAddrSet (l : List Host) (want : List String) : Bool :=
 
 /-- post-condition of the last operation of the history, when the implementation reported success: last update wins,
 removed objects are gone, an endpoint assignment yields the union of its localities. `look` reads the observed live cluster. -/
-def lastOp (op : Op) (ok : Bool) (look : String → Option LiveCluster) : Bool :=
+def lastOp (op : Op) (ok : Bool) (look : String → Option LiveCluster) (lookL : String → Option LiveListener) : Bool :=
   if !ok then true else
   match op with
   | .removeClusters names => names.all (fun n => (look n).isNone)
@@ -192,13 +209,17 @@ def lastOp (op : Op) (ok : Bool) (look : String → Option LiveCluster) : Bool :
   | .xdsEndpoints [(c, locs)] => match look c with
     | some lc => isAddrSet lc.hosts (locs.flatten.map (·.addr))
     | none => false
+  | .deleteListener n => (lookL n).isNone
+  | .addOrUpdateListener lc => match lookL (if lc.name.isEmpty then lc.addr else lc.name) with
+    | some l => l.sf == lc.sf && l.nf == lc.nf && l.idle == lc.idle && l.cfg.addr == lc.addr
+    | none => false
   | _ => true
 
-def holds (last : Option (Op × Bool)) (cnames : List String) (ob : Observation) : Bool :=
+def holds (last : Option (Op × Bool)) (cnames lnames : List String) (ob : Observation) : Bool :=
   coherent ob &&
   match last with
   | none => true
-  | some (op, ok) => lastOp op ok (fun n => ((cnames.zip ob.liveC).lookup n).join)
+  | some (op, ok) => lastOp op ok (fun n => ((cnames.zip ob.liveC).lookup n).join) (fun n => ((lnames.zip ob.liveL).lookup n).join)
 
 end Spec
 end MosnVerif.Model.Updates
